@@ -26,7 +26,7 @@ for d in seeded/C*/; do
     echo "| $name | $prop | $rc | $nv | $first |" >> $OUT
     echo "$name $prop exit=$rc violations=$nv"
     [ $rc -eq 1 ] || miss=$((miss+1))
-    git -C $R checkout -- .
+    git -C $R checkout -- .; git -C $R clean -fdq -- src tests
 done
 echo "" >> $OUT
 echo "not detected by the target check: $miss" >> $OUT
